@@ -87,7 +87,20 @@ def gen_clause(rng: random.Random, pool: list[str], *, risky=False) -> str:
     return f"{op}{v}"
 
 
-def gen_leaf(rng: random.Random, pool: list[str], *, risky=False) -> str:
+def gen_leaf(rng: random.Random, pool: list[str], *, risky=False, alternatives=True) -> str:
+    if alternatives and rng.random() < 0.12:
+        # a hand-written `||` text (the parser folds the alternatives with |): touching, overlapping, out of order
+        if rng.random() < 0.4:
+            v = rng.choice(pool)
+            lo_op, hi_op = rng.choice([("<", ">="), ("<=", ">"), ("<=", ">="), ("<", ">")])
+            alts = [f"{lo_op}{v}", f"{hi_op}{v}"]
+            if rng.random() < 0.5:
+                alts.reverse()
+            if rng.random() < 0.3:
+                alts.append(gen_leaf(rng, pool, risky=risky, alternatives=False))
+        else:
+            alts = [gen_leaf(rng, pool, risky=risky, alternatives=False) for _ in range(rng.choice([2, 2, 3]))]
+        return "||".join(alts)
     n = rng.choice([1, 1, 1, 2, 2, 3])
     return ",".join(gen_clause(rng, pool, risky=risky) for _ in range(n))
 
@@ -241,8 +254,9 @@ class Session:
                 except Exception as e:  # noqa: BLE001
                     full["exc"] = "in:" + type(e).__name__
                 if ev["op"] == "parse" and leaf_oracle:
-                    ss = SpecifierSet(ev["text"]) if ev["text"] != "<empty>" else None
-                    full["leaf_ref"] = [bool(ss.contains(c, prereleases=True)) if ss is not None else False for c in cands]
+                    # a leaf is a comma set or `||`-joined comma sets: packaging's verdict per alternative, or-ed
+                    alts = [SpecifierSet(a) for a in ev["text"].split("||") if a != "<empty>"]
+                    full["leaf_ref"] = [any(bool(ss.contains(c, prereleases=True)) for ss in alts) for c in cands]
                 if ev["op"] == "reparse":
                     orig = self.objs[ev["a"] - 1]
                     full["eq_orig"] = bool(obj == orig) and bool(orig == obj)
@@ -379,8 +393,13 @@ def twin_session(sid: int, seed: int) -> dict:
     pool = make_pool(rng, k=2, epoch_ok=False)
     rel = [rng.choice([1, 2, 3, 9])] + [rng.choice([0, 0, 1, 2, 10]) for _ in range(rng.choice([0, 1, 1, 2]))]
     v = ".".join(map(str, rel))
-    kind = rng.choice(["zero", "zero", "zero", "post", "post", "rc", "dev"])
-    w = {"zero": v + ".0", "post": v + ".post1", "rc": v + "rc1", "dev": v + ".dev1"}[kind]
+    kind = rng.choice(["zero", "zero", "zero", "post", "post", "rc", "dev", "prezero"])
+    if kind == "prezero":          # one pre-release in two spellings: 1.1a1 / 1.1.0a1
+        suffix = rng.choice(["a1", "rc1", ".dev1"])
+        v, w = v + suffix, v + ".0" + suffix
+        kind = "pre"
+    else:
+        w = {"zero": v + ".0", "post": v + ".post1", "rc": v + "rc1", "dev": v + ".dev1"}[kind]
     if rng.random() < 0.1:
         v, w = "1!" + v, "1!" + w
     ops = ["<", "<=", ">", ">=", "==", "!="] + (["==*", "!=*", "==*", "!=*"] if kind == "zero" else []) + (["~=", "~="] if len(rel) >= 2 else [])
@@ -406,7 +425,11 @@ def twin_session(sid: int, seed: int) -> dict:
         pool = pool + [f"{x}.{y}", f"{x + 1}.0"]
     if rng.random() < 0.5:
         t1, t2 = t2, t1
-    if render_twins or rng.random() < 0.25:
+    if kind == "pre" and op in ("<", "<=") and not extra and rng.random() < 0.7:
+        # the partner starts one step above the twins' release: the union is a hole with a pre-release edge
+        nxt = rel[:-1] + [rel[-1] + 1]
+        u = s.parse(">=" + ".".join(map(str, nxt + ([0] if rng.random() < 0.5 else []))))
+    elif render_twins or rng.random() < 0.25:
         # the partner is a union (a hole): the twins meet UnionSpecifier's own operators
         a = rng.choice(pool)
         u = s.parse(rng.choice([f"!={a}", f"!={Version(a).base_version}.*", f"!={a},!={rng.choice(pool)}"]))
